@@ -2,7 +2,7 @@
 
 CHECK = {
     "harnesses": [
-        {"exe": "c09_objectives", "flavour": "plain", "cases": (14000, 300000), "procs": (8, 14), "subs": ["objectives"]},
+        {"exe": "c09_objectives", "flavour": "plain", "cases": (40000, 300000), "procs": (8, 14), "subs": ["objectives"]},
     ],
     "min_nontrivial": (3000, 60000),
     "timeout": (900, 7200),
